@@ -162,13 +162,30 @@ func (p *Parser) ParseProgram() *ast.Statements {
 	for p.curToken.Type() != token.EOF && p.curToken.Type() != token.EOL {
 		stmt := p.parseStatement()
 		if stmt == nil {
-			return program
+			break
 		}
 		program.Statements = append(program.Statements, stmt)
 		p.nextToken()
 	}
-
+	p.checkUnterminatedString()
 	return program
+}
+
+// A string literal without closing quote ends the token stream like the end of the input does: without this
+// check a program ending in (or consisting of) such a literal would be taken as complete.
+func (p *Parser) checkUnterminatedString() {
+	if !p.l.Unterminated() || p.continuationNeeded {
+		return
+	}
+	if p.l.EOLEOF() == token.EOLT { // line mode: more input may close it.
+		if len(p.errors) == 0 {
+			p.continuationNeeded = true
+		}
+		return
+	}
+	if len(p.errors) == 0 {
+		p.errors = append(p.errors, "unterminated string literal")
+	}
 }
 
 func (p *Parser) parseArrayLiteral() ast.Node {
